@@ -115,7 +115,7 @@ def write(mod, tier, seed, merged, wall_s, n_violations, known_hits, extra_assum
         assumptions=list(compat.ASSUMPTIONS) + list(getattr(mod, "ASSUMPTIONS", [])) + list(extra_assumptions),
         wall_s=round(wall_s, 2), violations=n_violations,
     )
-    path = os.path.join(compat.VERIF, "evidence", f"{mod.ID}.json")
+    path = os.path.join(compat.OUT, "evidence", f"{mod.ID}.json")
     os.makedirs(os.path.dirname(path), exist_ok=True)
     tmp = path + ".tmp"
     with open(tmp, "w") as f:
